@@ -393,6 +393,38 @@ def run_case(case):
                 saw_mut.add(op[3])
         if kind in OBSERVERS and op[1] in saw_mut:
             nt_obs = True
+    # ---- a node id that is NOT unique is never silently resolved: if (through a deliberate rewrite of NodeID, the
+    # only way the interface offers) two nodes of one graph carry the same id, every call addressing that id must
+    # refuse rather than act on one of them
+    if not v:
+        for fl in ("shared", "disjoint"):
+            if fl == "disjoint" and not disjoint_live:
+                continue
+            for gid in GRAPHS:
+                ids_ = sorted(M.g(gid)["nodes"])
+                if len(ids_) < 2:
+                    continue
+                G = systems[fl]["h"][gid]
+                x, y = ids_[0], ids_[1]
+                try:
+                    G.update_node_property(node_id=x, prop_name="NodeID", prop_val=y)
+                except Exception:
+                    continue                      # the backend refuses the rewrite itself: nothing to probe
+                labels.add("ambiguous-id-probe")
+                for name, fn in (("get_node_properties", lambda: G.get_node_properties(node_id=y)),
+                                 ("update_node_property", lambda: G.update_node_property(node_id=y, prop_name="p",
+                                                                                        prop_val="zz")),
+                                 ("unset_node_property", lambda: G.unset_node_property(node_id=y, prop_name="p")),
+                                 ("delete_node", lambda: G.delete_node(node_id=y))):
+                    try:
+                        fn()
+                        v.append((f"C05/ambiguous-node-id/silently-resolved/{name}",
+                                  f"{fl} backend: two nodes of graph {gid} carry NodeID {y!r}, {name} acted on one of "
+                                  f"them instead of refusing | base={case['base']} ops={case['ops']}"))
+                        break
+                    except Exception:
+                        pass
+                break
     nt = nt_obs or err_path
     if nt:
         labels.add("nontrivial")
